@@ -173,7 +173,7 @@ class Workspace:
         body = []
         if t in self.h["checkt"] and c == "unest":
             body += [f'rm -f "$GROG_WORKSPACE_ROOT/../ext/{t}"']
-        elif t in self.h["checkt"] and c != "noest":
+        elif t in self.h["checkt"] and c != "noest" and not (c == "omit" and out):   # (the specification's "omit" of a target with outputs fails before it touches the condition)
             body += ['mkdir -p "$GROG_WORKSPACE_ROOT/../ext"', f'echo ok > "$GROG_WORKSPACE_ROOT/../ext/{t}"']
         body.append(f": command version {c}")     # every command version is a different command text (also for targets without outputs)
         if c == "omit":
